@@ -329,7 +329,16 @@ func (ch *n3Child) probes(batch int) {
 	n.probeSeq++
 	key := fmt.Sprintf("c17probe-%d-%d", batch, n.probeSeq)
 	tx := []byte(key + "=v")
-	hp.Send(chMempool, mustMarshal((&protomem.Txs{Txs: [][]byte{tx}}).Wrap()))
+	// Hostile peers may have filled the mempool with transactions the application accepts (a full
+	// mempool refuses further ones by design - property C12's business).  The honest co-validator
+	// lets the chain commit them first, and the honest peer offers its transaction again now and then.
+	r.Max("n3.max_mempool_size_before_probe", int64(n.mempool.Size()))
+	if n.mempool.Size() > 0 {
+		_, _ = n.advance(1, 30*time.Second)
+	}
+	offer := func() { hp.Send(chMempool, mustMarshal((&protomem.Txs{Txs: [][]byte{tx}}).Wrap())) }
+	offer()
+	lastOffer := time.Now()
 	committed := func() bool {
 		res, err := n.proxyApp.Query().QuerySync(abci.RequestQuery{Path: "/store", Data: []byte(key)})
 		return err == nil && res != nil && string(res.Value) == "v"
@@ -342,7 +351,19 @@ func (ch *n3Child) probes(batch int) {
 		}
 		return false
 	}
-	if !waitUntil(wd, func() bool { return inPool() || committed() }) {
+	if !waitUntil(wd, func() bool {
+		if inPool() || committed() {
+			return true
+		}
+		if time.Since(lastOffer) > 3*time.Second {
+			lastOffer = time.Now()
+			if n.mempool.Size() > 0 {
+				_, _ = n.advance(1, 10*time.Second)
+			}
+			offer()
+		}
+		return false
+	}) {
 		fail("mempool-checktx", "an honest peer's transaction was not admitted to the mempool within 30 s")
 		return
 	}
